@@ -377,5 +377,92 @@ func Features() []Feature {
 		b.Msg("Root", spec.FM("data", 1, b.FQ("BarList")).MapOf(spec.String).With(func(a *spec.Ann) { a.Unwrap = true }))
 		return "Root"
 	}})
+	// rich siblings: every message-level codec must leave its neighbours alone — proto3 optional
+	// scalars and messages (synthetic oneofs), members of a plain oneof, repeated and map fields
+	rich := func(b *B, start int32, oi int) ([]*spec.Field, *spec.Oneof) {
+		kid := b.Child("SibKid")
+		return []*spec.Field{
+			spec.F("opt_note", start, spec.String).Opt(), spec.FM("opt_kid", start+1, kid).Opt(), spec.F("opt_flag", start+2, spec.Bool).Opt(),
+			spec.F("actor_user", start+3, spec.String).In(oi), spec.FM("actor_kid", start+4, kid).In(oi), spec.F("actor_code", start+5, spec.Int32).In(oi),
+			spec.FM("kid_list", start+6, kid).Rep(), spec.F("tag_map", start+7, spec.String).MapOf(spec.String), spec.F("plain_big", start+8, spec.Int64),
+		}, &spec.Oneof{Name: "actor"}
+	}
+	withRich := func(b *B, m *spec.Message, first []*spec.Oneof, start int32) {
+		fs, oo := rich(b, start, len(first)+1)
+		m.Fields = append(m.Fields, fs...)
+		m.Oneofs = append(append([]*spec.Oneof{}, first...), oo)
+	}
+	_ = withRich
+	type richFam struct {
+		ann   string
+		build func(b *B) (*spec.Message, []*spec.Oneof)
+	}
+	for _, rf := range []richFam{
+		{"int64_number", func(b *B) (*spec.Message, []*spec.Oneof) {
+			return b.Msg("Root", spec.F("id", 1, spec.String), spec.F("big_total", 2, spec.Int64).With(func(a *spec.Ann) { a.Int64Enc = 2 })), nil
+		}},
+		{"nullable", func(b *B) (*spec.Message, []*spec.Oneof) {
+			return b.Msg("Root", spec.F("id", 1, spec.String), spec.F("maybe_text", 2, spec.String).Opt().With(func(a *spec.Ann) { a.Nullable = spec.B(true) })), nil
+		}},
+		{"empty_null", func(b *B) (*spec.Message, []*spec.Oneof) {
+			k := b.Child("EKid")
+			return b.Msg("Root", spec.F("id", 1, spec.String), spec.FM("maybe_kid", 2, k).With(func(a *spec.Ann) { a.EmptyBehavior = 2 })), nil
+		}},
+		{"ts_unix_seconds", func(b *B) (*spec.Message, []*spec.Oneof) {
+			return b.Msg("Root", spec.F("id", 1, spec.String), spec.FM("seen_at", 2, spec.Timestamp).With(func(a *spec.Ann) { a.TSFormat = 2 })), nil
+		}},
+		{"bytes_hex", func(b *B) (*spec.Message, []*spec.Oneof) {
+			return b.Msg("Root", spec.F("id", 1, spec.String), spec.F("digest", 2, spec.Bytes).With(func(a *spec.Ann) { a.BytesEnc = 5 })), nil
+		}},
+		{"oneof_nested", func(b *B) (*spec.Message, []*spec.Oneof) {
+			b.Msg("Text", spec.F("body", 1, spec.String))
+			b.Msg("Image", spec.F("url", 1, spec.String), spec.F("width_px", 2, spec.Int32))
+			m := b.Msg("Root", spec.F("id", 1, spec.String), spec.FM("text_part", 2, b.FQ("Text")).In(1), spec.FM("image", 3, b.FQ("Image")).In(1))
+			return m, []*spec.Oneof{{Name: "content", HasConfig: true, Discriminator: "type"}}
+		}},
+		{"oneof_flatten", func(b *B) (*spec.Message, []*spec.Oneof) {
+			b.Msg("Text", spec.F("body", 1, spec.String))
+			b.Msg("Image", spec.F("url", 1, spec.String), spec.F("width_px", 2, spec.Int32))
+			m := b.Msg("Root", spec.F("id", 1, spec.String), spec.FM("text_part", 2, b.FQ("Text")).In(1), spec.FM("image", 3, b.FQ("Image")).In(1))
+			return m, []*spec.Oneof{{Name: "content", HasConfig: true, Discriminator: "type", Flatten: true}}
+		}},
+		{"flatten_prefix", func(b *B) (*spec.Message, []*spec.Oneof) {
+			b.Msg("Addr", spec.F("street", 1, spec.String), spec.F("zip", 2, spec.String))
+			return b.Msg("Root", spec.F("id", 1, spec.String), spec.FM("address", 2, b.FQ("Addr")).With(func(a *spec.Ann) { a.Flatten = spec.B(true); a.FlattenPrefix = spec.S("addr_") })), nil
+		}},
+		{"unwrap_mapvalue", func(b *B) (*spec.Message, []*spec.Oneof) {
+			b.Msg("Bar", spec.F("symbol", 1, spec.String), spec.F("lots", 2, spec.Int32))
+			b.Msg("BarList", spec.FM("bars", 1, b.FQ("Bar")).Rep().With(func(a *spec.Ann) { a.Unwrap = true }))
+			return b.Msg("Root", spec.F("id", 1, spec.String), spec.FM("bars", 2, b.FQ("BarList")).MapOf(spec.String)), nil
+		}},
+		{"none", func(b *B) (*spec.Message, []*spec.Oneof) {
+			return b.Msg("Root", spec.F("id", 1, spec.String), spec.F("plain", 2, spec.Int32)), nil
+		}},
+	} {
+		rf := rf
+		fam := rf.ann
+		switch fam {
+		case "flatten_prefix":
+			fam = "flatten"
+		case "unwrap_mapvalue":
+			fam = "unwrap"
+		}
+		if fam == "unwrap" {
+			// the unwrap container codec re-implements its siblings and is known not to build with
+			// optional scalars or oneof members (C13 gobuild/pair): keep the siblings it supports
+			add(Feature{ID: "unwrap/siblings/optional-message", Ann: rf.ann, Kind: "siblings", Card: "optional-message", Shape: "word", Build: func(b *B) string {
+				m, _ := rf.build(b)
+				kid := b.Child("SibKid")
+				m.Fields = append(m.Fields, spec.FM("opt_kid", 21, kid).Opt(), spec.FM("kid_list", 26, kid).Rep(), spec.F("tag_map", 27, spec.String).MapOf(spec.String), spec.F("plain_big", 28, spec.Int64))
+				return "Root"
+			}})
+			continue
+		}
+		add(Feature{ID: fam + "/siblings/rich", Ann: rf.ann, Kind: "siblings", Card: "rich", Shape: "word", Build: func(b *B) string {
+			m, first := rf.build(b)
+			withRich(b, m, first, 20)
+			return "Root"
+		}})
+	}
 	return out
 }
